@@ -129,10 +129,16 @@ func (d *dumpStruct) loopHandleKV(s reflect.StructField, tv reflect.Value, isNee
 		mapLen := tv.Len()
 		tmpIndex := 0
 		for mapObj.Next() {
-			// 把 key 处理成字符串
-			d.buf.WriteByte('"')
+			// 把 key 处理成字符串, 注: string/bool 在 loopHandleKV 里已加引号
+			keyKind := mapObj.Key().Kind()
+			needQuote := keyKind != reflect.String && keyKind != reflect.Bool
+			if needQuote {
+				d.buf.WriteByte('"')
+			}
 			d.loopHandleKV(d.nullStructFiled, mapObj.Key(), false)
-			d.buf.WriteByte('"')
+			if needQuote {
+				d.buf.WriteByte('"')
+			}
 			d.buf.WriteString(":")
 			d.loopHandleKV(d.nullStructFiled, mapObj.Value(), false)
 			if tmpIndex < mapLen-1 {
